@@ -269,13 +269,13 @@ def gen_cases(rng, tier):
     _warm()
     cases = []
     classes = list(CLASSES)
-    n = 260 if tier == "quick" else 4000
+    n = 900 if tier == "quick" else 12000
     for i in range(n):
         cases.append(_gen_case(rng, classes[i % len(classes)] if i < 4 * len(classes) else None))
-    for _ in range(60 if tier == "quick" else 800):
+    for _ in range(200 if tier == "quick" else 2500):
         cases.append(_gen_pure_case(rng, 12))
     # default spring layout: oracle only
-    for _ in range(6 if tier == "quick" else 60):
+    for _ in range(12 if tier == "quick" else 150):
         c = _gen_case(rng, rng.choice(["NetworkGrid", "Network"]), 8)
         c["space"]["spring"] = True
         cases.append(c)
